@@ -445,7 +445,8 @@ namespace AIToolbox {
      * @return The entropy of the input.
      */
     inline double getEntropy(const ProbabilityVector & v) {
-        return (v.array() * v.array().log()).sum();
+        // 0 * log(0) is taken as 0 (its limit), rather than 0 * -inf = NaN.
+        return (v.array() > 0.0).select(v.array() * v.array().log(), 0.0).sum();
     }
 
     /**
@@ -458,7 +459,8 @@ namespace AIToolbox {
     inline double getEntropyBase2(const ProbabilityVector & v) {
         double entropy = 0.0;
         for (auto i = 0; i < v.size(); ++i)
-            entropy += v[i] * std::log2(v[i]);
+            if (v[i] > 0.0) // 0 * log2(0) is taken as 0 (its limit), rather than NaN.
+                entropy += v[i] * std::log2(v[i]);
         return entropy;
     }
 
